@@ -588,6 +588,13 @@ impl Domain for ClusterDomain {
                 self.down.retain(|x| *x != u(1));
                 "ok".into()
             },
+            "partialnext" => {
+                // partialnext <j> <positions|->: the next BULK storage mutation on node j (a purge's `remove_tombstones`) performs only
+                // the items at these positions (ascending key order), reports them and fails
+                let l = t[2];
+                *self.nodes[u(1)].directive.lock() = Directive::Written(if l == "-" { vec![] } else { l.split(',').map(|v| p_u64(v) as usize).collect() });
+                "ok".into()
+            },
             "failfetch" => {
                 // the next document read on node i's storage fails: a repairing peer's `fetch_docs` is answered with an error
                 self.nodes[u(1)].fail_read.store(true, std::sync::atomic::Ordering::SeqCst);
